@@ -3,22 +3,36 @@
   C15.R1  every class that keeps a networkx graph freezes it at the end of its constructor (decided on the inlined view of the
           constructor by graph-mutation events: nothing modifies the graph after nx.freeze, which lies on every path to the exit);
           graph mutators are reachable only from the constructor; every module is registered as a node before the first edge is
-          created from the imports argument
+          created from the imports argument.  The order of construction events is read off a view in which helpers are expanded
+          and producer / consumer protocols over iterators are spelled as loops (c15_fusion.py: generator functions yielding
+          request records, itertools.chain, `[*a, *b]`, `xs.extend(gen)`, records dispatched by isinstance / match); an element
+          recorded in a *ledger* - a container from which a graph is materialised later (`for n in self._seen: g.add_node(n)`,
+          `g.add_edges_from(self._pending)`) - counts like the graph call it stands for
   C15.R2  nothing reachable from an evaluation entry point (public API: every concrete assert_applies, the query interface of the
           evaluable architecture) writes to the entry point's receiver, to its arguments or to anything reachable from them; decided
           by an ownership analysis (c15_roots.py) that knows fresh / owned / handed-in objects, independent of variable and helper
           names.  One kind of write is accepted: a self-rewrite `self.F = h(self.F)` that is idempotent (rebuilt only under a flag of
-          the old value which the rebuilt value clears) and does not look at the other arguments
+          the old value which the rebuilt value clears) and does not look at the other arguments.  A second kind is accepted when
+          C15.R4 proves it unobservable: filling a memo table by key.  A `functools.cached_property` that is not provably
+          unobservable counts as a write to its instance at the first read (an object created during the evaluation may cache
+          whatever it likes; the evaluable, a rule or anything they hold may not)
   C15.R3  unordered (set) iteration never reaches text without `sorted`; no container is both grown and shrunk inside one loop over
           an unordered collection (helpers expanded)
   C15.R4  no function writes class-level, module-level or escaping-closure state, also not through an alias; no observable cache
-          (memoised functions are accepted only when they are pure functions of immutable arguments with an immutable result)
+          (memoised functions are accepted only when they are pure functions of immutable arguments with an immutable result;
+          per instance - lru_cache on a method, cached_property - when they read nothing but state that is fixed once the
+          constructor has finished and cannot run before that).  Instance tables that evaluations fill by key (c15_memo.py) are
+          memos nobody can observe when they are keyed completely (data and control dependences of the stored value), filled
+          after construction only, from state no evaluation assigns, only ever used by key, with immutable or copied values; a
+          stored value that depends on a parameter missing from the key is reported
   C15.R5  order-independent selection (c15_selection.py): in a loop (for / worklist) over a collection whose order is not part of
           the contract - a set, a directory listing (iterdir / glob / listdir / scandir / walk), a sequence in the order in which a
           caller of the public API listed its items - no keep-or-drop decision reads what earlier iterations of the same loop have
           accumulated, except de-duplication on the element's own identity; a seen-set keyed by a derived value while the element
           is kept, or any other test against the kept-so-far collection, is reported.  Sorted input and tests against a collection
-          that is complete before the loop are order independent
+          that is complete before the loop are order independent.  Helpers that test and set (`if not self._register(name):
+          continue`) are expanded where they are called; a de-duplication on a derived key counts only when what is kept is
+          control dependent on its outcome (its branches, what follows an early exit, later tests of flags set there)
 
 Anchors are public API names (assert_applies, get_dependencies, ... , the constructor signature (modules, imports, ...)), library
 names (networkx.freeze, DiGraph.add_node / add_edge, dataclasses.replace, functools.lru_cache) and types - never private helpers,
@@ -333,7 +347,10 @@ def _graph_closures(repo: Repo) -> dict:
         for _round in range(3):
             changed = False
             for f in builders:
-                changed |= led.discover(inline_view(repo, f, T))
+                try:
+                    changed |= led.discover(inline_view(repo, f, T))
+                except Exception:  # noqa: BLE001
+                    continue
             if not changed:
                 break
         writers: dict[str, set[FuncInfo]] = {"lnode": set(), "ledge": set()}
@@ -360,14 +377,21 @@ class GraphBuild:
         self.fn = fn
         self.T = types_of(repo)
         # helpers expanded, then producer / consumer protocols over iterators (generators, itertools.chain) spelled as loops
-        self.view = fused_view(repo, inline_view(repo, fn, self.T), self.T)
+        plain = inline_view(repo, fn, self.T)
+        try:
+            self.view = fused_view(repo, plain, self.T)
+        except Exception:  # noqa: BLE001 - a protocol the rewriting cannot express: the plain view is still a sound basis
+            self.view = plain
         self.cfg = cfg_of(self.view)
         cl = _graph_closures(repo)
         self.kind_funcs = cl["kind_funcs"]
         self.freeze_funcs = cl["freeze_funcs"]
         self.ledgers: Ledgers = cl["ledgers"]
         for _round in range(3):  # ledgers that are locals of this very view
-            if not self.ledgers.discover(self.view):
+            try:
+                if not self.ledgers.discover(self.view):
+                    break
+            except Exception:  # noqa: BLE001
                 break
         self.ev = {s: self.events(s) for s in self.cfg.stmts()}
 
@@ -697,7 +721,33 @@ def run_r1(repo: Repo, res: Result) -> None:
 def _eval_reach(repo: Repo) -> dict:
     key = "_c15_eval_reach"
     if key not in repo.__dict__:
-        repo.__dict__[key] = reachable_funcs(repo, evaluation_roots(repo), byname=True)
+        reach = reachable_funcs(repo, evaluation_roots(repo), byname=True)
+        # the shared call graph follows reads of `@property`; reads of `@functools.cached_property` call their function as well
+        cached = {}
+        for ci in repo.classes.values():
+            for m in ci.methods.values():
+                if "cached_property" in m.decorators:
+                    cached.setdefault(m.name, []).append(m)
+        if cached:
+            T = types_of(repo)
+            work = list(reach)  # (types_of / reachable_funcs do not raise on shapes they cannot resolve: they answer "unknown")
+            while work:
+                g = work.pop()
+                for n in own_nodes(g.node):
+                    if isinstance(n, ast.Attribute) and isinstance(n.ctx, ast.Load) and n.attr in cached:
+                        try:
+                            ms = members(T.expr(g, n.value))
+                        except Exception:  # noqa: BLE001
+                            ms = []
+                        known = {m[1] for m in ms if m[0] == "cls"}
+                        for f in cached[n.attr]:
+                            related = {c.fq for c in repo.mro(f.cls)} | {c.fq for c in repo.subclasses(f.cls)}
+                            if (not known or known & related) and f not in reach:
+                                for h, path in reachable_funcs(repo, [f], byname=True).items():
+                                    if h not in reach:
+                                        reach[h] = reach[g] + path
+                                        work.append(h)
+        repo.__dict__[key] = reach
     return repo.__dict__[key]
 
 
@@ -723,7 +773,12 @@ def memo_tables(repo: Repo, reach=None) -> list:
     """Instance tables filled by keyed stores during evaluations, each judged (c15_memo.py): memo | violated | other."""
     key = "_c15_memos"
     if key not in repo.__dict__:
-        repo.__dict__[key] = memo_engine(repo, reach).tables()
+        try:
+            repo.__dict__[key] = memo_engine(repo, reach).tables()
+        except AnalysisError:
+            raise
+        except Exception:  # noqa: BLE001 - an unusual shape the classifier cannot read: nothing is accepted, C15.R2 judges every write
+            repo.__dict__[key] = []
     return repo.__dict__[key]
 
 
@@ -1042,6 +1097,10 @@ def run_r2(repo: Repo, res: Result) -> None:
             rewrites.append(rw)
             if rw.verdict != "violated":
                 accepted |= {id(node) for _fi, node in rw.stores}
+    # cached properties that are not provably unobservable write to their instance on first access
+    for m in memoised(repo):
+        if m["harmless"] is None:
+            R.register_cached_property(m["f"])
     # second accepted kind of write: filling a memo table nobody can observe (judged by C15.R4, c15_memo.py)
     for mt in memo_tables(repo):
         if mt.verdict == "memo":
@@ -1681,8 +1740,11 @@ def memoised(repo: Repo, reach=None) -> list[dict]:
     """Functions under a caching decorator; `harmless` when the cache cannot be observed: a function (module-level, static or
     class method - no instance) of immutable arguments only, returning an immutable value (text, numbers, tuples / frozensets of
     those, a compiled pattern), computed from its arguments and immutable module / class constants only, writing nothing."""
+    key = "_c15_memoised"
+    if key in repo.__dict__:
+        return repo.__dict__[key]
     T = types_of(repo)
-    out = []
+    out = repo.__dict__[key] = []
     for f in repo.all_functions():
         decos = [d for d in f.decorators if d in CACHE_DECORATORS]
         if not decos or isinstance(f.node, ast.Lambda):
@@ -1693,12 +1755,18 @@ def memoised(repo: Repo, reach=None) -> list[dict]:
         if bound:
             # a memo per instance: unobservable when the method is a function of its arguments and of state that is fixed
             # once the constructor has finished (c15_memo.py), and cannot run before that
-            eng = memo_engine(repo, reach)
-            reason = eng.pure(f) if f.cls is not None else "it is not a method of a class"
-            if reason is None and f in eng.ctor_reach(f.cls):
-                reason = "it can run while the object is still under construction"
+            try:
+                eng = memo_engine(repo, reach)
+                reason = eng.pure(f) if f.cls is not None else "it is not a method of a class"
+                if reason is None and f in eng.ctor_reach(f.cls):
+                    reason = "it can run while the object is still under construction"
+            except AnalysisError:
+                raise
+            except Exception:  # noqa: BLE001
+                reason = "its body could not be analysed"
             if reason is not None:
                 why.append(f"it is bound to an instance whose state it can read ({reason}): the value computed for one state of the object is served for every later one")
+        per_instance = "cached_property" in decos and all(d == "cached_property" for d in decos)
         for p in f.params:
             if p.arg == sn:
                 continue
@@ -1712,7 +1780,11 @@ def memoised(repo: Repo, reach=None) -> list[dict]:
             reason = _reads_only_constants(repo, f)
             if reason is not None:
                 why.append(reason)
-        out.append({"f": f, "decorators": decos, "harmless": not why, "why": why, "bound": bound})
+        # a cached property lives and dies with its instance: when it is not provably unobservable, the write it performs on first
+        # access (the value is stored in the instance) is judged like any other write, by the ownership analysis of C15.R2 - an
+        # instance created during the evaluation may cache whatever it likes
+        harmless = (not why) if not (why and per_instance) else None
+        out.append({"f": f, "decorators": decos, "harmless": harmless, "why": why, "bound": bound})
     return out
 
 
@@ -1733,6 +1805,9 @@ def run_r4(repo: Repo, res: Result) -> None:
     ms = memoised(repo)
     for m in ms:
         f = m["f"]
+        if m["harmless"] is None:
+            res.observe(f"{f.relpath}::{f.qualname}::cache decorator: cached property that is not provably unobservable ({'; '.join(m['why'])}); the write to its instance on first access is judged by C15.R2")
+            continue
         res.add(
             "C15.R4",
             f"{f.relpath}::{f.qualname}::cache decorator",
@@ -1751,7 +1826,7 @@ def run_r4(repo: Repo, res: Result) -> None:
             res.add("C15.R4", key, False, f"{mt.cls.name}.{mt.attr} is filled during evaluations and is not keyed completely: {mt.detail}", where(f0, n0), kind="effect")
         else:
             res.observe(f"{key}: not accepted as an unobservable memo ({mt.detail}); its writes are judged by C15.R2")
-    bad_memo = [m for m in ms if not m["harmless"]]
+    bad_memo = [m for m in ms if m["harmless"] is False]
     res.add("C15.R4", "src::no shared mutable state written inside functions", not ws and not bad_memo, f"{len(repo.funcs)} functions analysed: none writes class-level, module-level or closure state, none keeps an observable cache", kind="effect")
     # positive fixture: the rule must recognise the textbook forms (expected count on the real tree is zero)
     import shutil
@@ -1768,7 +1843,7 @@ def run_r4(repo: Repo, res: Result) -> None:
             "pure_text": True, "shared_result": False, "state_dependent": False, "of_mutable_argument": False,
             "Patterns.body_pattern": True, "Patterns.escaped": True, "Patterns.matches_of": False, "Patterns.reads_mutable_class_state": False,
             "Patterns.reads_mutable_module_state": False, "Patterns.of_instance": True, "Patterns.lazily": True,
-            "Index.of_fixed_state": True, "Index.fixed_lazily": True, "Index.of_later_state": False, "Index.list_lazily": False,
+            "Index.of_fixed_state": True, "Index.fixed_lazily": True, "Index.of_later_state": False, "Index.list_lazily": None,
             "Index.during_construction": False, "Index.of_mutable_class_state": False,
         }
         if memo != want_memo:
@@ -1807,7 +1882,10 @@ def selections(repo: Repo, order: "Order | None" = None) -> list[dict]:
     for f in repo.all_functions():
         if isinstance(f.node, ast.Lambda) or not any(isinstance(n, (ast.For, ast.AsyncFor, ast.While)) for n in own_nodes(f.node)):
             continue
-        v = sel.hoisted_view(repo, f, T)  # the inlined view, test-and-set helpers called inside `if` tests expanded as well
+        try:
+            v = sel.hoisted_view(repo, f, T)  # the inlined view, test-and-set helpers called inside `if` tests expanded as well
+        except Exception:  # noqa: BLE001
+            v = inline_view(repo, f, T)
         for info in sel.loops_of(v):
             src = getattr(info.loop, "_src", None)
             if src is not None and src[0] != f:
